@@ -371,10 +371,11 @@ func runC17(c *Ctx) {
 				}
 				if ifi, ok := d.Instrs[len(d.Instrs)-1].(*ssa.If); ok {
 					if bo, ok := ifi.Cond.(*ssa.BinOp); ok && (bo.Op == token.GTR || bo.Op == token.LSS || bo.Op == token.GEQ || bo.Op == token.LEQ) {
-						cx, okx := bo.X.(*ssa.Call)
-						cy, oky := bo.Y.(*ssa.Call)
-						if okx && oky && len(cx.Call.Args) == 1 && len(cy.Call.Args) == 1 {
-							a, b2 := cx.Call.Args[0], cy.Call.Args[0]
+						// each side is the replacement value of one entry - computed by a helper call or inline
+						// from the entry's fields: the entry pointers the operand is made of
+						rx, ry := entryRoots(bo.X, nodeT), entryRoots(bo.Y, nodeT)
+						if len(rx) == 1 && len(ry) == 1 {
+							a, b2 := rx[0], ry[0]
 							switch {
 							case stripConv(b2) == fresh:
 								cmpPtr = stripConv(a)
@@ -677,4 +678,42 @@ func argBehindParam(root *ssa.Function, v ssa.Value) ssa.Value {
 		v = stripConv(arg)
 	}
 	return v
+}
+
+// entryRoots: the table-entry pointers a value is computed from (through calls, arithmetic, conversions,
+// field loads and phis; constants contribute nothing).
+func entryRoots(v ssa.Value, nodeT *types.Named) []ssa.Value {
+	seen := map[ssa.Value]bool{}
+	var roots []ssa.Value
+	var walk func(v ssa.Value, d int)
+	walk = func(v ssa.Value, d int) {
+		if v == nil || seen[v] || d > 12 {
+			return
+		}
+		seen[v] = true
+		if pt, ok := v.Type().Underlying().(*types.Pointer); ok {
+			if n, ok := pt.Elem().(*types.Named); ok && n.Obj() == nodeT.Obj() {
+				x := stripConv(v)
+				for _, r := range roots {
+					if r == x {
+						return
+					}
+				}
+				roots = append(roots, x)
+				return
+			}
+		}
+		switch x := v.(type) {
+		case *ssa.Const, *ssa.Global, *ssa.Parameter, *ssa.Function, *ssa.Builtin:
+			return
+		case ssa.Instruction:
+			for _, op := range x.Operands(nil) {
+				if op != nil && *op != nil {
+					walk(*op, d+1)
+				}
+			}
+		}
+	}
+	walk(v, 0)
+	return roots
 }
